@@ -342,8 +342,13 @@ pub fn plan(property: &str, tier: Tier) -> Option<Plan> {
 }
 
 /// Maps a panic inside the code under test to the property it violates.
-pub fn classify_panic(p: &PanicRecord) -> (String, String) {
+pub fn classify_panic(p: &PanicRecord, checked: &str) -> (String, String) {
     let site = p.location.rsplit('/').next().unwrap_or(&p.location).to_string();
+    // component worlds call the code under test directly: a panic there is a failure of the
+    // property the world decides (e.g. a disseminator that cannot be constructed for some stakes)
+    if matches!(checked, "C16" | "C11" | "C12" | "C13" | "C15" | "C19") {
+        return (checked.to_string(), format!("panic:{site}"));
+    }
     if p.message.contains("consensus safety violation") {
         return ("C01".into(), format!("panic:safety-assert:{site}"));
     }
